@@ -13,18 +13,18 @@ import (
 
 // ChunkRec is what the trace carries about one chunk.
 type ChunkRec struct {
-	K int  `json:"k"`           // key
-	T int  `json:"t"`           // 0 array, 1 bitmap, 2 run, 9 other/nil
-	C int  `json:"c"`           // cached cardinality (array: len; bitmap: cached field; run: -1)
-	N int  `json:"n"`           // number of elements counted by our walk
-	R int  `json:"r"`           // number of runs stored (run chunks) else -1
-	S bool `json:"s"`           // shared (needCopyOnWrite) flag
-	O int  `json:"o"`           // object id (first-seen renumbering of the chunk's payload address)
-	M int  `json:"m"`           // 0 = heap, i>0 = payload lies inside registered caller buffer i
-	V bool `json:"v"`           // payload order is valid (array strictly increasing / runs sorted, disjoint, non-adjacent, within 0..65535)
-	H uint64 `json:"-"`         // payload hash
-	First uint64 `json:"-"`     // some element of the chunk (probe target)
-	Ptr uintptr `json:"-"`
+	K     int     `json:"k"` // key
+	T     int     `json:"t"` // 0 array, 1 bitmap, 2 run, 9 other/nil
+	C     int     `json:"c"` // cached cardinality (array: len; bitmap: cached field; run: -1)
+	N     int     `json:"n"` // number of elements counted by our walk
+	R     int     `json:"r"` // number of runs stored (run chunks) else -1
+	S     bool    `json:"s"` // shared (needCopyOnWrite) flag
+	O     int     `json:"o"` // object id (first-seen renumbering of the chunk's payload address)
+	M     int     `json:"m"` // 0 = heap, i>0 = payload lies inside registered caller buffer i
+	V     bool    `json:"v"` // payload order is valid (array strictly increasing / runs sorted, disjoint, non-adjacent, within 0..65535)
+	H     uint64  `json:"-"` // payload hash
+	First uint64  `json:"-"` // some element of the chunk (probe target)
+	Ptr   uintptr `json:"-"`
 }
 
 type View struct {
